@@ -345,9 +345,9 @@ theorem notInTree (r : Route) (h : inTree r = false) : isStaticPat r.pat = true 
 
 theorem getRoute_ref (sat : Nat → Bytes → Bool) (R : List Route) (hR : NormalR R) (m : Bytes) (path : Bytes)
     (hp : path.head? = some '/')
-    (hS : dShadow1 R m (cutAny path) = false) (hN : dNames1 R m (cutAny path) = false)
+    (hS : dShadow1 R m (cutAny path) = false)
     (hC : dCfall1 sat R m (cutAny path) = false) :
-    okOf (getRouteGen false sat (treeFor R m) path Ctx.fresh) =
+    okOf (getRouteGen false false sat (treeFor R m) path Ctx.fresh) =
       (refRoute sat R m (cutAny path)).map fun r =>
         (leafOf r, pushAll Ctx.fresh ((routeMatch sat r (cutAny path)).getD [])) := by
   have hNP : ∀ r ∈ R, NormalPat r.text r.pat := fun r hr => (hR r hr).1
@@ -360,7 +360,7 @@ theorem getRoute_ref (sat : Nat → Bytes → Bool) (R : List Route) (hR : Norma
     subst hroot
     have hcut : cutAny ['/'] = ⟨[], false⟩ := by simp [cutAny]
     rw [hcut]
-    have hget : getRouteGen false sat ⟨nodesOf (entriesOf R m), staticsOf R m⟩ ['/'] Ctx.fresh =
+    have hget : getRouteGen false false sat ⟨nodesOf (entriesOf R m), staticsOf R m⟩ ['/'] Ctx.fresh =
         ((getK (nodesOf (entriesOf R m)) []).leaf, Ctx.fresh) := by simp [getRouteGen]
     rw [hget]
     have hcands : cands sat R m ⟨[], false⟩ = R.filter fun r => r.method = m && r.pat.isEmpty := by
@@ -475,11 +475,11 @@ theorem getRoute_ref (sat : Nat → Bytes → Bool) (R : List Route) (hR : Norma
             refine ⟨hr, ⟨hrm, ?_⟩, htx⟩
             simp [inTree, hrs, hrne]
           rw [hnone] at this; simp at this
-      have hget : getRouteGen false sat ⟨nodesOf (entriesOf R m), staticsOf R m⟩ path Ctx.fresh =
-          walkGen false sat (nodesOf (entriesOf R m)) (cutAny path).trail [] Ctx.fresh (cutAny path).segs := by
+      have hget : getRouteGen false false sat ⟨nodesOf (entriesOf R m), staticsOf R m⟩ path Ctx.fresh =
+          walkGen false false sat (nodesOf (entriesOf R m)) (cutAny path).trail [] (Ctx.fresh, []) (cutAny path).segs := by
         simp only [getRouteGen, hnr, if_false, hstat, hparse]
       rw [hget]
-      exact walk_ref sat R hOK hD m (cutAny path) hsegs hsh hS hN hC
+      exact walk_ref sat R hOK hD m (cutAny path) hsegs hsh hS hC
     · obtain ⟨R1, s, R2, hsplit, hs, hR2⟩ := last_sat _ R hnone
       simp only [Bool.and_eq_true, decide_eq_true_eq, Bool.not_eq_true'] at hs
       obtain ⟨⟨hsm, hst⟩, htx⟩ := hs
@@ -498,7 +498,7 @@ theorem getRoute_ref (sat : Nat → Bytes → Bool) (R : List Route) (hR : Norma
           · simp only [Bool.and_eq_true, decide_eq_true_eq, Bool.not_eq_true'] at hc'
             simp [hc'.2.1, hc'.2.2, ht] at this
           · simp [ht]
-      have hget : getRouteGen false sat ⟨nodesOf (entriesOf R m), staticsOf R m⟩ path Ctx.fresh =
+      have hget : getRouteGen false false sat ⟨nodesOf (entriesOf R m), staticsOf R m⟩ path Ctx.fresh =
           (some (leafOf s), Ctx.fresh) := by
         simp only [getRouteGen, hnr, if_false, hstat]
       rw [hget]
@@ -538,7 +538,7 @@ theorem getRoute_ref (sat : Nat → Bytes → Bool) (R : List Route) (hR : Norma
 the tree whose pattern matches the path. -/
 theorem getRoute_sound (sat : Nat → Bytes → Bool) (R : List Route) (hR : NormalR R) (m : Bytes) (path : Bytes)
     (hp : path.head? = some '/') (lf : Leaf) (ctx : Ctx)
-    (h : okOf (getRouteGen false sat (treeFor R m) path Ctx.fresh) = some (lf, ctx)) :
+    (h : okOf (getRouteGen false false sat (treeFor R m) path Ctx.fresh) = some (lf, ctx)) :
     ∃ r ∈ R, r.method = m ∧ lf = leafOf r ∧
       (matchPat (cutAny path).trail r.pat (cutAny path).segs).isSome = true := by
   have hNP : ∀ r ∈ R, NormalPat r.text r.pat := fun r hr => (hR r hr).1
@@ -549,7 +549,7 @@ theorem getRoute_sound (sat : Nat → Bytes → Bool) (R : List Route) (hR : Nor
   · subst hroot
     have hcut : cutAny ['/'] = ⟨[], false⟩ := by simp [cutAny]
     rw [hcut]
-    have hget : getRouteGen false sat ⟨nodesOf (entriesOf R m), staticsOf R m⟩ ['/'] Ctx.fresh =
+    have hget : getRouteGen false false sat ⟨nodesOf (entriesOf R m), staticsOf R m⟩ ['/'] Ctx.fresh =
         ((getK (nodesOf (entriesOf R m)) []).leaf, Ctx.fresh) := by simp [getRouteGen]
     rw [hget, nodesOf_leaf _ (entriesOf_ok R hOK m)] at h
     cases hl : lastSome (fun e : Entry => if strip e.pat [] = some [] then some e.lf else none) (entriesOf R m) with
@@ -569,7 +569,7 @@ theorem getRoute_sound (sat : Nat → Bytes → Bool) (R : List Route) (hR : Nor
     have hparse := parsePath_eq path hroot hpne
     cases hs : getStatic path (staticsOf R m) with
     | some lf' =>
-      have hget : getRouteGen false sat ⟨nodesOf (entriesOf R m), staticsOf R m⟩ path Ctx.fresh =
+      have hget : getRouteGen false false sat ⟨nodesOf (entriesOf R m), staticsOf R m⟩ path Ctx.fresh =
           (some lf', Ctx.fresh) := by simp only [getRouteGen, hnr, if_false, hs]
       rw [hget] at h
       simp only [okOf, Option.map_some, Option.some.injEq, Prod.mk.injEq] at h
@@ -591,8 +591,8 @@ theorem getRoute_sound (sat : Nat → Bytes → Bool) (R : List Route) (hR : Nor
         exact (static_text_iff r (hNP r hr'.1) hss hsne path hp).mp ht
       · simp [ht] at hfr
     | none =>
-      have hget : getRouteGen false sat ⟨nodesOf (entriesOf R m), staticsOf R m⟩ path Ctx.fresh =
-          walkGen false sat (nodesOf (entriesOf R m)) (cutAny path).trail [] Ctx.fresh (cutAny path).segs := by
+      have hget : getRouteGen false false sat ⟨nodesOf (entriesOf R m), staticsOf R m⟩ path Ctx.fresh =
+          walkGen false false sat (nodesOf (entriesOf R m)) (cutAny path).trail [] (Ctx.fresh, []) (cutAny path).segs := by
         simp only [getRouteGen, hnr, if_false, hs, hparse]
       rw [hget] at h
       obtain ⟨r, hr, hrm, _, hlf, hmatch⟩ := walk_sound sat R hOK m _ _ _ _ _ h
@@ -618,7 +618,7 @@ theorem lastSome_eq_none {α β} (f : α → Option β) (l : List α) (h : lastS
 the path beats the route `getRoute` returns. -/
 theorem getRoute_max (sat : Nat → Bytes → Bool) (R : List Route) (hR : NormalR R) (m : Bytes) (path : Bytes)
     (hp : path.head? = some '/') (lf : Leaf) (ctx : Ctx)
-    (h : okOf (getRouteGen false sat (treeFor R m) path Ctx.fresh) = some (lf, ctx)) :
+    (h : okOf (getRouteGen false false sat (treeFor R m) path Ctx.fresh) = some (lf, ctx)) :
     ∃ r ∈ R, r.method = m ∧ lf = leafOf r ∧
       ∀ r' ∈ R, r'.method = m → (matchPat (cutAny path).trail r'.pat (cutAny path).segs).isSome = true →
         better r'.pat r.pat = false := by
@@ -643,7 +643,7 @@ theorem getRoute_max (sat : Nat → Bytes → Bool) (R : List Route) (hR : Norma
     cases hs : getStatic path (staticsOf R m) with
     | some lf' =>
       -- a parameter-free route: nothing beats it
-      have hget : getRouteGen false sat ⟨nodesOf (entriesOf R m), staticsOf R m⟩ path Ctx.fresh =
+      have hget : getRouteGen false false sat ⟨nodesOf (entriesOf R m), staticsOf R m⟩ path Ctx.fresh =
           (some lf', Ctx.fresh) := by simp only [getRouteGen, hnr, if_false, hs]
       rw [hget] at h
       simp only [okOf, Option.map_some, Option.some.injEq, Prod.mk.injEq] at h
@@ -666,8 +666,8 @@ theorem getRoute_max (sat : Nat → Bytes → Bool) (R : List Route) (hR : Norma
         exact better_static_left _ _ hss
       · simp [ht] at hfr
     | none =>
-      have hget : getRouteGen false sat ⟨nodesOf (entriesOf R m), staticsOf R m⟩ path Ctx.fresh =
-          walkGen false sat (nodesOf (entriesOf R m)) (cutAny path).trail [] Ctx.fresh (cutAny path).segs := by
+      have hget : getRouteGen false false sat ⟨nodesOf (entriesOf R m), staticsOf R m⟩ path Ctx.fresh =
+          walkGen false false sat (nodesOf (entriesOf R m)) (cutAny path).trail [] (Ctx.fresh, []) (cutAny path).segs := by
         simp only [getRouteGen, hnr, if_false, hs, hparse]
       rw [hget] at h
       obtain ⟨r, hr, hrm, _, hlf, _, hmax⟩ := walk_sound_max sat R hOK m _ _ _ _ _ h
